@@ -85,6 +85,9 @@ func demuxPacketBody(name string, stream []byte) Body {
 		for i := 0; i < len(stream)/8+64; i++ {
 			x, err := d.NextPacket()
 			if err != nil {
+				if !errors.Is(err, astits.ErrNoMorePackets) {
+					k.add(err.Error())
+				}
 				break
 			}
 			k.add(x)
@@ -98,6 +101,40 @@ func demuxPacketBody(name string, stream []byte) Body {
 			prob = p
 		}
 		return k.snaps, prob
+	}}
+}
+
+// shortAutoBody demuxes, one after the other, inputs shorter than the 193 bytes packet-size
+// auto-detection looks at (a single packet, a truncated packet, one packet and a few bytes), and
+// then a regular stream: what each of them yields (an error, nothing, packets) must not depend on
+// what this or any other instance did before.
+func shortAutoBody(name string, stream []byte) Body {
+	return Body{Name: name, Run: func() ([]string, string) {
+		var res []string
+		for _, in := range [][]byte{stream[:188], stream[:100], stream[:192], stream} {
+			for _, api := range []string{"packet", "data"} {
+				d := astits.NewDemuxer(context.Background(), bytes.NewReader(in))
+				for i := 0; i < len(in)/8+64; i++ {
+					var x any
+					var err error
+					if api == "packet" {
+						x, err = d.NextPacket()
+					} else {
+						x, err = d.NextData()
+					}
+					if errors.Is(err, astits.ErrNoMorePackets) {
+						res = append(res, "end")
+						break
+					}
+					if err != nil {
+						res = append(res, err.Error())
+						continue
+					}
+					res = append(res, mc.Canon(x))
+				}
+			}
+		}
+		return res, ""
 	}}
 }
 
@@ -167,5 +204,6 @@ func Bodies(seed int64) []Body {
 		demuxPacketBody("demux-packets:af-variety", afv),
 		demuxDataBody("demux-data:af-variety", afv),
 		demuxDataBody("demux-data:split-section-headers", checks.SplitHeaderStream(seed)),
+		shortAutoBody("demux-short-inputs-auto-detected", ss[0].Bytes),
 	}
 }
